@@ -13,14 +13,14 @@ Import ListNotations.
 Open Scope Z_scope.
 
 (* Undisturbed: every value of length >= 1 (< 2^32), every client block size 1..127, all four CRC capability
-   combinations: the call returns exactly the value; every acknowledge carried the number of segments the server
+   combinations, server announcing the size in its initiate response or not (size_ind, the s bit): the call returns exactly the value; every acknowledge carried the number of segments the server
    had sent (us_acks_exact), the final segment was trimmed by the announced count of unused bytes (the result is V),
    the transfer was closed (us_ended) and the server saw no protocol violation. *)
 Theorem C13_block_upload_exact :
-  forall (V : list Z) (B index sub : Z) (crc_client crc_server : bool) (fuel : nat),
+  forall (V : list Z) (B index sub : Z) (crc_client crc_server size_ind : bool) (fuel : nat),
   1 <= zlen V < 4294967296 -> 1 <= B <= 127 -> (length V + 1 < fuel)%nat ->
   exists u w,
-    ul_transfer (faulty ul_srv) fuel (mknet (fs_init (us_init V crc_server) []) [] []) index sub B crc_client = (Ok V, u, w) /\
+    ul_transfer (faulty ul_srv) fuel (mknet (fs_init (us_init V crc_server size_ind) []) [] []) index sub B crc_client = (Ok V, u, w) /\
     u_done u = true /\ u_error u = false /\
     us_ended (f_inner (n_srv w)) = true /\ us_acks_exact (f_inner (n_srv w)) = true /\ us_bad (f_inner (n_srv w)) = 0.
 Proof. exact block_upload_exact. Qed.
@@ -43,8 +43,8 @@ Proof. exact @crc_size_guard. Qed.
    the hypothesis u_done is redundant: only 8-byte frames are ever delivered, so a normal return is a completed
    transfer; its data have the announced CRC (when negotiated) and the announced length. *)
 Theorem C13_crc_guard_ref :
-  forall (V : list Z) (crc_server : bool) (faults : list fault) fuel index sub blksize crc data u w',
-  ul_transfer (faulty ul_srv) fuel (mknet (fs_init (us_init V crc_server) faults) [] []) index sub blksize crc = (Ok data, u, w') ->
+  forall (V : list Z) (crc_server size_ind : bool) (faults : list fault) fuel index sub blksize crc data u w',
+  ul_transfer (faulty ul_srv) fuel (mknet (fs_init (us_init V crc_server size_ind) faults) [] []) index sub blksize crc = (Ok data, u, w') ->
   u_done u = true /\
   (u_crcsup u = true -> u_scrc u = Some (crc16 data)) /\
   (forall s, u_size u = Some s -> zlen data = s).
@@ -56,11 +56,11 @@ Proof. exact crc_guard_ref. Qed.
    returns exactly the value; the transfer is closed and the server saw no protocol violation.
    (This is the behaviour after the fixes e896b3b and fc751a5; before them the statement was false, see notes/C13.md.) *)
 Theorem C13_single_loss_repaired :
-  forall (V : list Z) (B index sub : Z) (crc_client crc_server : bool) (fuel : nat) (j : Z),
+  forall (V : list Z) (B index sub : Z) (crc_client crc_server size_ind : bool) (fuel : nat) (j : Z),
   1 <= zlen V < 4294967296 -> 1 <= B <= 127 -> (length V + 1 < fuel)%nat ->
   2 <= j <= 1 + (zlen V + 6) / 7 ->
   exists u w,
-    ul_transfer (faulty ul_srv) fuel (mknet (fs_init (us_init V crc_server) [FDropS j]) [] []) index sub B crc_client = (Ok V, u, w) /\
+    ul_transfer (faulty ul_srv) fuel (mknet (fs_init (us_init V crc_server size_ind) [FDropS j]) [] []) index sub B crc_client = (Ok V, u, w) /\
     u_done u = true /\ u_error u = false /\ us_ended (f_inner (n_srv w)) = true /\ us_bad (f_inner (n_srv w)) = 0.
 Proof. exact upload_single_loss_repaired. Qed.
 
@@ -78,10 +78,10 @@ Proof. exact crc_from_concat. Qed.
 Example C13_nv_exact :
   let V := gen_bytes 20 1 in
   1 <= zlen V < 4294967296 /\
-  (let '(r, u, w) := ul_transfer (faulty ul_srv) 30 (mknet (fs_init (us_init V true) []) [] []) 8192 0 2 true in
+  (let '(r, u, w) := ul_transfer (faulty ul_srv) 30 (mknet (fs_init (us_init V true true) []) [] []) 8192 0 2 true in
    r = Ok V /\ u_done u = true /\ u_crcsup u = true /\ u_scrc u = Some (crc16 V) /\ u_size u = Some 20 /\ length (n_log w) = 10%nat) /\
   (* a disturbed transfer that still completes: one lost segment, repaired *)
-  (let '(r, u, w) := ul_transfer (faulty ul_srv) 30 (mknet (fs_init (us_init V true) [FDropS 3]) [] []) 8192 0 2 true in
+  (let '(r, u, w) := ul_transfer (faulty ul_srv) 30 (mknet (fs_init (us_init V true false) [FDropS 3]) [] []) 8192 0 2 true in
    r = Ok V /\ u_done u = true).
 Proof. vm_compute. repeat split; try reflexivity; try discriminate. Qed.
 
